@@ -1,0 +1,23 @@
+//go:build verif
+
+package auth
+
+// Machine-checked contracts for package auth (verification build only); read by /verif/govc.
+
+// The authenticator interface: ghost nauth counts the provider's decisions made for this goroutine, authok is the
+// outcome of the last one (C11: credentials are accepted exactly when the configured provider accepts them).
+//@ iface Authenticator.Authenticate
+//@   trusted
+//@   results err
+//@   flag args self, id, cred
+//@   ensures[ghostdef-auth] gfield(0, "nauth") == old(gfield(0, "nauth"))+1 && (gfield(0, "authok") == 1) == (err == nil) && (gfield(0, "authok") == 0 || gfield(0, "authok") == 1)
+//@   modifies gfield(0, "nauth"), gfield(0, "authok")
+
+// Manager.Authenticate: the provider is asked exactly once, with these credentials, and its answer is the result -
+// no credential is accepted or refused without the provider's own decision for this very call.
+//@ func (*Manager).Authenticate
+//@   results err
+//@   requires m.p != nil
+//@   atcall Authenticator.Authenticate requires[C11:same-credentials] callee_id == id && callee_cred == cred
+//@   ensures[C11:provider-decides] gfield(0, "nauth") == old(gfield(0, "nauth"))+1 && (gfield(0, "authok") == 1) == (err == nil) && (gfield(0, "authok") == 0 || gfield(0, "authok") == 1)
+//@   modifies gfield(0, "nauth"), gfield(0, "authok")
